@@ -77,6 +77,9 @@ var _ internal.TypedValue = (*SortedSet)(nil)
 // sorted set with the same members and scores (snapshots, AOF preamble).
 func (s *SortedSet) ValueTypeName() string { return "zset" }
 
+// CopyValue returns a sorted set with the same members and scores that shares nothing with s.
+func (s *SortedSet) CopyValue() interface{} { return NewSortedSet(s.GetAll()) }
+
 func (s *SortedSet) MarshalJSON() ([]byte, error) {
 	members := s.GetAll()
 	slices.SortFunc(members, func(a, b MemberParam) int { return cmp.Compare(a.Value, b.Value) })
